@@ -305,6 +305,10 @@ func (r *Resolver) Resolve(ctx context.Context, name string) (ResolveResult, err
 			}
 		}
 	}
+	// url.Parse keeps the brackets of an IPv6 literal without a port.
+	if len(name) > 2 && name[0] == '[' && name[len(name)-1] == ']' {
+		name = name[1 : len(name)-1]
+	}
 	if name == "localhost" {
 		result.Address = []net.IP{
 			net.IP{127, 0, 0, 1},
